@@ -906,7 +906,16 @@ pub fn gen_pattern(rng: &mut Rng, cfg: &GenCfg) -> Node {
 
 const TEXT_ALPHA: &[char] = &['a', 'a', 'a', 'b', 'b', 'c', 'é', '\n', '-', '1'];
 
+/// Extra text length allowed in the thorough tier (set once, before any job runs).
+static TEXT_BONUS: std::sync::atomic::AtomicUsize = std::sync::atomic::AtomicUsize::new(0);
+
+pub fn set_text_bonus(n: usize) {
+    TEXT_BONUS.store(n, std::sync::atomic::Ordering::SeqCst);
+}
+
 pub fn gen_text(rng: &mut Rng, max_len: usize) -> String {
+    let bonus = TEXT_BONUS.load(std::sync::atomic::Ordering::SeqCst);
+    let max_len = if bonus > 0 && rng.chance(1, 3) { max_len + bonus } else { max_len };
     let n = rng.range(0, max_len);
     let mut s = String::new();
     // sometimes a run of one letter, which is what makes quantifiers backtrack
